@@ -10,7 +10,7 @@ Local Open Scope ring_scope.
 (* the property, all sizes *)
 Theorem C05_pointwise_all_sizes :
   forall (R : comRingType) (conj : {rmorphism R -> R}) (conjK : involutive conj)
-         (n : nat) (T : Type) (x : qx (MxAlg conjK n) T) (t : T),
+         (n : nat) (T : TimeS (MxAlg conjK n)) (x : qx (MxAlg conjK n) T) (t : T),
     wfx (MxAlg conjK n) T x ->
     qe_call (MxAlg conjK n) T (build (MxAlg conjK n) T x) t = sem (MxAlg conjK n) T x t.
 Proof. by move=> R conj conjK n T x t Hx; rewrite qe_call_V; apply: pointwise. Qed.
@@ -18,7 +18,7 @@ Print Assumptions C05_pointwise_all_sizes.
 
 Theorem C05_matmul_data_all_sizes :
   forall (R : comRingType) (conj : {rmorphism R -> R}) (conjK : involutive conj)
-         (n : nat) (T : Type) (x : qx (MxAlg conjK n) T) (t : T) (s : 'M[R]_n),
+         (n : nat) (T : TimeS (MxAlg conjK n)) (x : qx (MxAlg conjK n) T) (t : T) (s : 'M[R]_n),
     wfx (MxAlg conjK n) T x ->
     qe_matmul_data (MxAlg conjK n) T (build (MxAlg conjK n) T x) t s
     = Some (sem (MxAlg conjK n) T x t *m s).
@@ -31,7 +31,7 @@ Print Assumptions C05_matmul_data_all_sizes.
 (* A.dag()(t) = (A(t))^*t and (A @ B)(t) = A(t) *m B(t) in MathComp's own terms *)
 Theorem C05_dag_and_product_on_matrices :
   forall (R : comRingType) (conj : {rmorphism R -> R}) (conjK : involutive conj)
-         (n : nat) (T : Type) (a b : list (@elem (MxAlg conjK n) T)) (t : T),
+         (n : nat) (T : TimeS (MxAlg conjK n)) (a b : list (@elem (MxAlg conjK n) T)) (t : T),
     let ev := qe_call (MxAlg conjK n) T in
     ev (qe_dag _ T a) t = (map_mx conj (ev a t))^T /\
     ev (qe_imatmul _ T a b) t = ev a t *m ev b t /\
